@@ -296,3 +296,5 @@ end Cfdp.Loop
 
 open Cfdp.Loop in
 #print axioms C07_eof
+#print axioms Cfdp.Send.C07_data
+#print axioms Cfdp.Send.C07_nak_queue
